@@ -17,3 +17,15 @@ for h in ("h_varint32", "h_varint64", "h_varint_decode_any", "h_fixed"):
                    "mtbl_fixed_encode64", "mtbl_fixed_decode32", "mtbl_fixed_decode64"],
         assumptions=[A_LE, "loops are width-bounded (<= 10 / <= 24 iterations): unwound with unwinding assertions, complete for the full 32/64-bit domain"],
         replay="c16")
+
+# ---------------------------------------------------------------- C19 open arbitrary bytes
+add("c19_reader_open", ["C19"], ["tu/reader_open.c", "$REPO/mtbl/metadata.c", "$REPO/mtbl/varint.c", "$REPO/mtbl/fixed.c",
+    "$REPO/mtbl/source.c", "$REPO/mtbl/iter.c"], "h_reader_open",
+    unwind=12, object_bits=10, safety="P", strength="U", timeout=900, slice=100, replay="c19",
+    functions=["mtbl_reader_init", "mtbl_reader_init_fd", "reader_init_madvise", "metadata_read", "mtbl_varint_decode64",
+               "mtbl_fixed_decode32", "mtbl_fixed_decode64", "block_init", "num_restarts", "mtbl_reader_destroy", "block_destroy",
+               "mtbl_source_init", "mtbl_source_destroy"],
+    assumptions=["fstat reports the true size; mmap returns exactly st_size readable bytes or MAP_FAILED (POSIX)",
+                 "file size <= 2^40 bytes (object-bits 10 leaves 54 offset bits); content arbitrary; both format versions (magic symbolic)",
+                 "mtbl_crc32c reads exactly [buf, buf+size) (its own contract, C17)", "allocation never fails (--no-malloc-may-fail; /repo asserts on it)",
+                 "every in-function pointer/bounds check is property-grade here; assert() stops of /repo are permitted outcomes (L)"])
